@@ -89,14 +89,29 @@ impl LKHSearch {
                 orig_routes.get(&route_ctx.route().actor).map(|orig_route_ctx| (route_ctx, orig_route_ctx))
             })
             .filter(|(route_ctx, orig_route_ctx)| {
-                orig_route_ctx.route().tour.job_count() > route_ctx.route().tour.job_count()
+                // NOTE: compare jobs, not their amount: repair can lose one job and get another (e.g. locked) one
+                orig_route_ctx.route().tour.jobs().any(|job| !route_ctx.route().tour.contains(job))
             })
             .for_each(|(route_ctx, orig_route_ctx)| {
                 *route_ctx = orig_route_ctx.deep_copy();
             });
 
-        // restore original unassigned jobs
-        new_solution.solution.unassigned = orig_solution.solution.unassigned.clone();
+        // restore original unassigned jobs except those which are assigned now (e.g. locked jobs are put into
+        // their routes when the solution is repaired): a job lives either in a tour or in the unassigned list
+        let assigned = new_solution
+            .solution
+            .routes
+            .iter()
+            .flat_map(|route_ctx| route_ctx.route().tour.jobs().cloned())
+            .collect::<HashSet<_>>();
+        new_solution.solution.unassigned = orig_solution
+            .solution
+            .unassigned
+            .iter()
+            .filter(|(job, _)| !assigned.contains(*job))
+            .map(|(job, info)| (job.clone(), info.clone()))
+            .collect();
+        new_solution.solution.required.retain(|job| !assigned.contains(job));
 
         // recalculate solution state if we do
         new_solution.restore();
